@@ -488,7 +488,8 @@ func (r *RateDef) Value(date cal.Date, tags []cbc.Key, ext Extensions) *RateValu
 				continue
 			}
 		}
-		if rv.Since == nil || !rv.Since.IsValid() || rv.Since.Before(date.Date) {
+		// a value applies from its start date onwards, including the date itself
+		if rv.Since == nil || !rv.Since.IsValid() || !rv.Since.After(date.Date) {
 			return rv
 		}
 	}
